@@ -175,4 +175,21 @@ theorem default_slot_collects_plain_children (kids : List Node)
 example : (extractSlotContent [.elem (S "template") [(S "v-slot:head", [])] [.text (S "H")], .elem (S "b") [] []]).map (·.1) = [S "head", S "default"] := by decide
 example : slotNameOf [(S "#row", S "p")] = S "row" ∧ slotNameOf [(S "v-slot", [])] = S "default" := by decide
 
+/-- a `<slot>` that is a member of a `v-if` chain is still a slot: once its chain has selected it, it renders exactly what `evalSlot`
+    renders for it - the supplied content, or the fallback when nothing was supplied - and never a literal `<slot>` element -/
+theorem conditional_slot_is_slot (W : World) (f : Nat) (ctx : Ctx) (st : St) (attrs : List Attr) (kids : List Node)
+    (hfor : getAttr attrs (S "v-for") = []) :
+    evalAsElement W (f + 1) ctx st (S "slot") attrs kids = evalSlot W f ctx st attrs kids := by
+  simp [evalAsElement, hfor]
+
+/-- ... and a `<slot v-if="c">` whose condition is false, with no `v-else-if` / `v-else` sibling after it, renders nothing at all:
+    neither the supplied content nor the fallback (the chain test comes before the slot test in `evaluate`) -/
+theorem slot_with_false_condition_renders_nothing (W : World) (f : Nat) (ctx : Ctx) (st : St) (attrs : List Attr) (kids : List Node) (c : Str)
+    (honce : hasAttr attrs (S "v-once") = false) (hpre : hasAttr attrs (S "v-pre") = false) (hfor : hasAttr attrs (S "v-for") = false)
+    (hif : hasAttr attrs (S "v-if") = true) (hc : getAttr attrs (S "v-if") = c) (hne : c ≠ [])
+    (hfalse : evalCondition W.P st.stack c = .ok false) :
+    evalList W (f + 2) ctx st [.elem (S "slot") attrs kids] = .ok ([], st) := by
+  have hne2 : (c == []) = false := by simpa using hne
+  simp [evalList, honce, hpre, hfor, hif, hc, chainSelect, hne2, hfalse, chainScan, bindE]
+
 end Vuego.Props.C06
